@@ -109,6 +109,21 @@ def cases(tier, seed):
                 cps = np.round(rng.uniform(0.5, 1.5, ncp) if dv == "chord_cp" else rng.uniform(-1, 1, ncp) * (5 if dv == "twist_cp" else 0.5), 3)
                 val = [float(x) for x in cps]
             out.append(dict(kind="dv_halves", dv=dv, mesh=spec, val=val))
+    # the same on full-span surfaces (symmetry off) whose two semi-spans differ: the mirror image of the wing with the mirrored
+    # distribution must give the mirror image of the mesh
+    for rep in range(reps):
+        for dv in dvs:
+            spec = M.random_spec(rng, half="full", nx=int(rng.integers(2, 4)), ny=int(rng.integers(1, 5)) * 2 + 1, odd_full=True)
+            spec.update(camber=0.0, twist_tip_deg=0.0, dihedral_deg=0.0, mirror_symmetric=bool(rep % 2 == 1 and tier != "quick"))
+            if rep % 3 != 2:
+                spec["offset"] = [0.0, float(np.round(rng.uniform(-0.3, 0.3) * spec["span"], 3)), 0.0]  # unequal semi-spans about y=0
+            ncp = int(rng.integers(1, 5))
+            val = dict(span=float(np.round(spec["span"] * rng.uniform(0.6, 1.6), 3)), sweep=float(np.round(rng.uniform(5, 30), 2)),
+                       dihedral=float(np.round(rng.uniform(3, 12), 2)), taper=float(np.round(rng.uniform(0.3, 0.8), 3))).get(dv)
+            if val is None:
+                cps = np.round(rng.uniform(0.5, 1.5, ncp) if dv == "chord_cp" else rng.uniform(-1, 1, ncp) * (5 if dv == "twist_cp" else 0.5), 3)
+                val = [float(x) for x in cps]
+            out.append(dict(kind="dv_halves", full=True, dv=dv, mesh=spec, val=val))
     for k in range(6 if tier == "quick" else 120):
         out.append(dict(kind="monotonic", ny=int(rng.integers(2, 12)), full=bool(k % 2), seed=int(rng.integers(1 << 30))))
     return out
@@ -255,9 +270,10 @@ def run_dv_halves(c, o):
     mesh = M.build(c["mesh"])
     dv = c["dv"]
     val = np.array(c["val"], float) if isinstance(c["val"], list) else c["val"]
-    sl = dict(name="wing", symmetry=True, mesh=mesh.copy(), S_ref_type="wetted")
+    full = bool(c.get("full", False))
+    sl = dict(name="wing", symmetry=not full, mesh=mesh.copy(), S_ref_type="wetted")
     sl[dv] = val
-    sr = dict(name="wing", symmetry=True, mesh=M.mirror(mesh), S_ref_type="wetted")
+    sr = dict(name="wing", symmetry=not full, mesh=M.mirror(mesh), S_ref_type="wetted")
     # a spanwise distribution is mirrored together with the wing (control points run along increasing y)
     sr[dv] = val[::-1].copy() if isinstance(val, np.ndarray) else val
     if dv == "yshear_cp":
@@ -266,8 +282,9 @@ def run_dv_halves(c, o):
     pr = run_geometry(sr)
     ml = np.array(pl.get_val("mesh"))
     mr = np.array(pr.get_val("mesh"))
-    tags = ["dv=" + dv.replace("_cp", ""), "right_half_mesh"]
-    o.close("dv_halves/mesh", mr, M.mirror(ml), rtol=1e-11, scale=np.abs(ml).max(), tags=tags, what="%s on a right-half mesh vs the mirror image of the left-half result" % dv)
+    tags = ["dv=" + dv.replace("_cp", ""), "full_span_mesh" if full else "right_half_mesh"]
+    o.close("dv_halves/mesh", mr, M.mirror(ml), rtol=1e-11, scale=np.abs(ml).max(), tags=tags,
+            what=("%s on the mirror image of a full-span wing vs the mirror image of the result" if full else "%s on a right-half mesh vs the mirror image of the left-half result") % dv)
     o.nontrivial = bool(np.abs(ml - mesh).max() > 1e-6)
 
 
